@@ -674,3 +674,45 @@ func (c *Ctx) own8() {
 	})
 	c.S.Floor("OWN-8", "Persistence.Load call sites", n, 5)
 }
+
+// ---- OWN-9: the in-memory store keeps private copies ----
+
+func init() {
+	register("OWN-9", []string{"OWN-9"}, func(c *Ctx, _ map[string]bool) { c.own9() })
+}
+
+func (c *Ctx) own9() {
+	sv := c.Fn("OWN-9", "(*volatile).Save")
+	ld := c.Fn("OWN-9", "(*volatile).Load")
+	if sv == nil || ld == nil {
+		return
+	}
+	a := c.acc("OWN-9", sv, "stored-value-is-a-fresh-copy")
+	for _, b := range sv.Blocks {
+		for _, ins := range b.Instrs {
+			mu, ok := ins.(*ssa.MapUpdate)
+			if !ok {
+				continue
+			}
+			fresh := func(v ssa.Value) bool {
+				ms, ok := v.(*ssa.MakeSlice)
+				return ok && ms.Parent() == sv
+			}
+			okV := fresh(mu.Value)
+			if phi, isPhi := mu.Value.(*ssa.Phi); isPhi {
+				okV = true
+				for _, e := range phi.Edges {
+					if !fresh(e) {
+						okV = false
+					}
+				}
+			}
+			if okV {
+				a.pass()
+			} else {
+				a.failAt(c.P.Pos(mu.Pos()), "the volatile store keeps %s, which is not a slice allocated by this Save: callers reuse their buffers (onPUBREC composes the PUBREL in the client's scratch buffer), so the stored record changes behind the store's back", Expr(mu.Value))
+			}
+		}
+	}
+	a.done(1, "the map only ever receives a slice made inside Save")
+}
